@@ -9,7 +9,7 @@ TRUSTED = ['Tier H model coq/Model/{Axis,Filter}.v tied to /repo by vm_compute c
            'modelled, not verified: binary64 rounding (model is exact; numbers compared within 1e-9, decisions away from borders by >= 5e-4)',
            'firmware behaviour = the reference printer',
            'plugin layer (hooks, @-command action table and scripts from the settings): `plugin` vm_compute correspondence against the real ExcludeRegionPlugin (harness/pluginstream.py, Model/Plugin.v)']
-ASSUMPTIONS = ['no homing, G92 X/Y/Z or M206 while an episode is open (as the property states)']
+ASSUMPTIONS = ['no homing, G92 X/Y/Z or M206 while an episode is open (as the property states; an episode also stays open after an arc whose samples crossed a region, wherever the arc ends -- histories that home in that state are left to C01, finding D14)']
 KW = dict()
 
 
